@@ -338,7 +338,9 @@ class Prop:
 def _safe(fn, *a):
     try:
         return fn(*a)
-    except Exception as e:  # harness-visible internal error of the implementation
+    except KeyboardInterrupt:
+        raise
+    except BaseException as e:  # harness-visible internal error of the implementation (SystemExit from argparse included)
         tb = traceback.format_exc(limit=6)
         return {"exc": type(e).__name__, "msg": str(e)[:300], "tb": tb[-1200:]}
 
